@@ -7,6 +7,7 @@ get_value, set_value, make_mapping, is_empty, seq_items,
 remove_attributes_with_default_values}, yatiml.introspection.
 defaulted_attributes.
 """
+from collections import OrderedDict
 from typing import List, Optional, Union
 
 import yaml
@@ -37,7 +38,7 @@ ASSUMPTIONS = [
     '<= 2 (so they can equal every key and also miss)',
     'rename_attribute onto another existing key is outside the property '
     '(distinct keys) and assumed away',
-    'set_value is exercised on nodes carrying a core-schema tag; a node with '
+    'set_value is exercised on nodes carrying a tag:yaml.org,2002: tag; a node with '
     'a class tag keeps it by design (helpers.py comment) and is outside the '
     'claim',
     'float <-> str conversion is CPython (C); floats come from a palette',
@@ -46,11 +47,20 @@ ASSUMPTIONS = [
 KEYS = ['a', 'b_', 'd']
 TYPS = [str, int, float, bool, None, list, dict]
 CORE = [T_STR, T_INT, T_FLOAT, T_BOOL, T_NULL]
+# starting tags for set_value: every tag of the YAML type repository is a
+# built-in one, not a class tag
+STARTS = CORE + ['tag:yaml.org,2002:timestamp', 'tag:yaml.org,2002:binary',
+                 'tag:yaml.org,2002:set', 'tag:yaml.org,2002:omap',
+                 'tag:yaml.org,2002:value', 'tag:yaml.org,2002:python/tuple',
+                 'tag:yaml.org,2002:map', 'tag:yaml.org,2002:seq']
 
 
 def _initial(n: int):
-    vals = [scalar(T_STR, 'v0'), scalar(T_INT, '5'),
-            seq([scalar(T_STR, 'i')])]
+    # collections carry explicit tags: what makes a value a list or a dict
+    # is its node kind, not its tag
+    vals = [scalar(T_STR, 'v0'),
+            mapping([(scalar(T_STR, 'r'), scalar(T_INT, '5'))], tag='!Circle'),
+            seq([scalar(T_STR, 'i')], tag='tag:yaml.org,2002:omap')]
     items = [(scalar(T_STR, k), vals[i]) for i, k in enumerate(KEYS[:n])]
     return yatiml.Node(mapping(items))
 
@@ -237,7 +247,7 @@ def classify_reach(kind: int, tag: str, t: int) -> bool:
 
 # --------------------------------------------------------------------------
 def _setget_int(start, v) -> bool:
-    node = yatiml.Node(scalar(pick(CORE, start), 'old'))
+    node = yatiml.Node(scalar(pick(STARTS, start), 'old'))
     node.set_value(v)
     got = node.get_value()
     note(v=v, got=got, tag=node.yaml_node.tag)
@@ -247,7 +257,7 @@ def _setget_int(start, v) -> bool:
 
 def setget_int(start: int, v: int) -> bool:
     """
-    pre: 0 <= start < 5
+    pre: 0 <= start < 13
     pre: -50 <= v <= 50
     post: __return__
     """
@@ -256,11 +266,11 @@ def setget_int(start: int, v: int) -> bool:
 
 def setget_str(start: int, v: str) -> bool:
     """
-    pre: 0 <= start < 5
+    pre: 0 <= start < 13
     pre: len(v) <= 6
     post: __return__
     """
-    node = yatiml.Node(scalar(pick(CORE, start), 'old'))
+    node = yatiml.Node(scalar(pick(STARTS, start), 'old'))
     node.set_value(v)
     got = node.get_value()
     note(v=v, got=got, tag=node.yaml_node.tag)
@@ -269,13 +279,13 @@ def setget_str(start: int, v: str) -> bool:
 
 def setget_other(start: int, which: int) -> bool:
     """
-    pre: 0 <= start < 5
+    pre: 0 <= start < 13
     pre: 0 <= which < 9
     post: __return__
     """
     v = pick([True, False, None, 0.0, 1.5, -2.25, 1e300, float('inf'),
               float('-inf')], which)
-    node = yatiml.Node(scalar(pick(CORE, start), 'old'))
+    node = yatiml.Node(scalar(pick(STARTS, start), 'old'))
     node.set_value(v)
     got = node.get_value()
     note(v=v, got=got, tag=node.yaml_node.tag)
@@ -286,7 +296,7 @@ def setget_other(start: int, which: int) -> bool:
 
 def setget_reach(start: int, v: int) -> bool:
     """
-    pre: 0 <= start < 5
+    pre: 0 <= start < 13
     pre: -50 <= v <= 50
     post: __return__
     """
@@ -424,11 +434,23 @@ def _same(value, default) -> bool:
     return value == default
 
 
-def _mk_class(d1, override, use_override):
-    class K:
-        def __init__(self, r: int, x: Optional[Union[int, float, str, bool]]
-                     = d1, y: Optional[int] = None) -> None:
-            self.r, self.x, self.y = r, x, y
+def _mk_class(d1, override, use_override, with_extra=False):
+    if with_extra:
+        # _yatiml_extra, itself with a default, after the defaulted ones
+        class K:
+            def __init__(self, r: int,
+                         x: Optional[Union[int, float, str, bool]] = d1,
+                         y: Optional[int] = None,
+                         _yatiml_extra: Optional[OrderedDict] = None
+                         ) -> None:
+                self.r, self.x, self.y = r, x, y
+                self._yatiml_extra = _yatiml_extra
+    else:
+        class K:
+            def __init__(self, r: int,
+                         x: Optional[Union[int, float, str, bool]] = d1,
+                         y: Optional[int] = None) -> None:
+                self.r, self.x, self.y = r, x, y
     if use_override:
         K._yatiml_defaults = {'x': override}
     return K
@@ -442,7 +464,7 @@ def _remove_defaults(e, via_ov, nv_x, nv_y, has_x, extra) -> bool:
     NX, NY = pick(_NODEVALS, nv_x), pick(_NODEVALS, nv_y)
     # the effective default of x comes from the signature or from
     # _yatiml_defaults (then the signature default is something else)
-    K = _mk_class('other' if via_ov else EFF, EFF, via_ov)
+    K = _mk_class('other' if via_ov else EFF, EFF, via_ov, extra)
     items = [(scalar(T_STR, 'r'), scalar(T_INT, '1'))]
     if has_x:
         items.append((scalar(T_STR, 'x'), scalar(*NX)))
@@ -530,11 +552,11 @@ CONDITIONS = [
      'bound': 'node kind in {scalar, seq, map} x FREE tag string (len<=24) x '
               '5 scalar types'},
     {'fn': 'setget_int', 'quick': 60, 'thorough': 120, 'twin': 'setget_reach',
-     'bound': 'int |v| <= 50 (str(int)/int(str) are realised by the engine, so the range is enumerated), 5 starting tags'},
+     'bound': 'int |v| <= 50 (str(int)/int(str) are realised by the engine, so the range is enumerated), 13 starting tags (core scalar tags and other tags of the YAML type repository)'},
     {'fn': 'setget_str', 'quick': 60, 'thorough': 120,
-     'bound': 'free str len<=6, 5 starting tags'},
+     'bound': 'free str len<=6, 13 starting tags (core scalar tags and other tags of the YAML type repository)'},
     {'fn': 'setget_other', 'quick': 60, 'thorough': 60,
-     'bound': 'bool, None, 6 floats incl. inf (palette), 5 starting tags'},
+     'bound': 'bool, None, 6 floats incl. inf (palette), 13 starting tags (core scalar tags and other tags of the YAML type repository)'},
     {'fn': 'getvalue_words', 'quick': 90, 'thorough': 90,
      'twin': 'getvalue_reach',
      'bound': '37 spellings from the YAML 1.1/1.2 scalar grammars'},
@@ -553,7 +575,8 @@ CONDITIONS = [
      'bound': '12 defaults (None, ints, floats, bools, strs) of an optional '
               'parameter, given in the signature or by _yatiml_defaults, x 16 '
               'node values (tag, spelling) x attribute present/absent x a '
-              'second defaulted attribute (None) x an unrelated extra key'},
+              'second defaulted attribute (None) x an unrelated extra key '
+              'together with a defaulted _yatiml_extra parameter'},
     {'fn': 'remove_defaults_reach', 'slices': [3], 'quick': 60,
      'thorough': 60, 'expect': 'REFUTED',
      'bound': 'reachability twin of remove_defaults'},
